@@ -77,7 +77,7 @@ class C10(Check):
     props_file = "Props/C10.v"
     models = ["Jitter"]
     quick_cases = 2500
-    thorough_cases = 80000
+    thorough_cases = 50000
     case_timeout = 60.0
     level_note = ("Theorems are about Model/Jitter.v (and, for C17, the window abstraction proved equivalent to it in "
                   "Proof/JitterP.v); the tie to aiortc.jitterbuffer.JitterBuffer is the differential run of generated "
